@@ -243,7 +243,23 @@ let run_engine (id, lines) =
                   Printf.printf "%s %d gens %s\n" id !step (String.concat " " outs);
                   Printf.printf "%s %d result done\n" id !step
               | _ -> failwith "bad q_gens")
-         | "q_best" -> Printf.printf "%s %d result done\n" id !step
+         | "q_best" | "q_check" -> Printf.printf "%s %d result done\n" id !step
+         | "q_format" ->
+             let o = format_solution i s in
+             let p = Printf.sprintf "%s %d fmt" id !step in
+             List.iteri (fun vi v ->
+               Printf.printf "%s veh %d dur %s travel %s dist %s stopsdur %s wait %s\n" p vi
+                 (zs v.vo_duration) (zs v.vo_travel) (zs v.vo_distance) (zs v.vo_stops_duration) (zs v.vo_waiting);
+               List.iter (fun st ->
+                 let (a, b, e) = (match st.so_times with Some ((a, b), e) -> (zs a, zs b, zs e) | None -> ("-", "-", "-")) in
+                 Printf.printf "%s stop %d %d tr %s ct %s dur %s wait %s dist %s cumdist %s a %s s %s e %s\n" p vi (n2i st.so_stop)
+                   (zs st.so_travel) (zs st.so_cumtravel) (zs st.so_duration) (zs st.so_waiting) (zs st.so_distance)
+                   (zs st.so_cumdistance) a b e) v.vo_route) o.out_vehicles;
+             Printf.printf "%s unplanned %s\n" p
+               (String.concat " " (List.map string_of_int (List.sort compare (List.map n2i o.out_unplanned))));
+             let terms = List.sort compare (List.map2 (fun n v -> n ^ "=" ^ zs v) (term_names i) o.out_terms) in
+             Printf.printf "%s objective %s | %s\n" p (zs o.out_total) (String.concat " " terms);
+             Printf.printf "%s %d result done\n" id !step
          | "snapall" ->
              Printf.printf "%s %d result done\n" id !step;
              Array.iteri (fun j sj -> snapshot (Printf.sprintf "%s S%d" id j) !step i sj) !sols
